@@ -259,3 +259,41 @@ def replay(rp):
     o = check(rp["property"], rp.get("tier", "quick"), rp.get("seed", 1))
     sig = rp.get("signature")
     return not [v for v in o.violations if sig is None or v.signature == sig]
+
+
+def selftest():
+    """binding demonstration: one corrupted field of a recorded operator call must be reported by TraceOps"""
+    import copy
+    bins = C.build_harness("default", ["ops"])
+    hb = bins["ops"]
+    work = os.path.join(C.WORK, "ops")
+    os.makedirs(work, exist_ok=True)
+    base = os.path.join(work, "selftest-%d.ndjson" % os.getpid())
+    C.run([hb, "record", "--profile", "random", "--seed", "4242", "--n", "60", "--out", base], timeout=900)
+    lines = [json.loads(l) for l in open(base)]
+    os.remove(base)
+
+    def validate(evs, tag):
+        p = os.path.join(work, "selftest-%s-%d.ndjson" % (tag, os.getpid()))
+        with open(p, "w") as f:
+            for e in evs:
+                f.write(json.dumps(e, separators=(",", ":")) + "\n")
+        _, n, res = _validate(p, 0)
+        os.remove(p)
+        done = res.tagged("TRACE-DONE")
+        return {"rc": res.rc, "consumed": bool(done) and done[-1]["lines"] == n,
+                "kinds": sorted({m["kind"] for m in res.tagged("MISMATCH")}), "mismatches": len(res.tagged("MISMATCH"))}
+    report = {"trace_lines": len(lines), "unmodified": validate(lines, "base")}
+    ok = report["unmodified"]["consumed"] and report["unmodified"]["mismatches"] == 0
+    i = next(j for j, e in enumerate(lines) if e.get("ok") is True and C.le_n(e["cost"]) > 0 and len(e["op"]) == 1 and e["op"][0] in (16, 17, 14, 11, 13))
+    m = copy.deepcopy(lines)
+    m[i]["cost"] = C.n_le(C.le_n(m[i]["cost"]) - 1)
+    report["cost-1"] = validate(m, "cost")
+    ok = ok and report["cost-1"]["mismatches"] == 1 and "outcome" in report["cost-1"]["kinds"]
+    m = copy.deepcopy(lines)
+    m[i]["ok"] = False
+    m[i]["kind"] = "InvalidOpArg"
+    report["ok->error"] = validate(m, "err")
+    ok = ok and report["ok->error"]["mismatches"] == 1
+    report["ok"] = bool(ok)
+    return report
